@@ -64,7 +64,9 @@ Inductive aop :=
 | AEOpen       (* an <open/> for that session was handled *)
 | ARSend       (* receipts: SendMessage registered a message that awaits its receipt *)
 | ARGone       (* receipts: that call returned or was cancelled *)
-| ARSignal.    (* receipts: the handler processed a receipt for the id of that message *)
+| ARSignal     (* receipts: the handler processed a receipt for the id of that message *)
+| AWWrite.     (* ibb: a local Write on the acknowledged stream (from, sid) is in progress: its data IQ is
+                  out and it holds the stream's write lock until the peer acknowledges *)
 
 (* what the environment of a call looks like *)
 Record env := mkenv {
@@ -77,7 +79,8 @@ Record env := mkenv {
                               comes from the occupant that joined *)
   e_full : bool;           (* the session's local address is a full JID *)
   e_hist : list aop;       (* application-side history *)
-  e_match : bool           (* ibb: the <open/> is for the session (from, sid) Expect was called for *)
+  e_match : bool           (* ibb: the <open/> or <close/> is for the session (from, sid) Expect was called
+                              for / the local Write is on *)
 }.
 
 (* facts read from the sources by the translator (gen/C09Sites.v) *)
@@ -85,7 +88,8 @@ Record facts := mkfacts {
   f_keys_agree : bool;     (* the ibb listener table is deleted from under the key it is inserted with *)
   f_depart_select : bool;  (* muc: the departure notification is one alternative of a select *)
   f_expect_owner : bool;   (* ibb: an Expect call that gives up removes the registration only if it is its own *)
-  f_rcpt_delete_first : bool (* receipts: the handler deletes the table entry before it signals the sender *)
+  f_rcpt_delete_first : bool; (* receipts: the handler deletes the table entry before it signals the sender *)
+  f_close_no_wait : bool   (* ibb: the close handler never waits for the stream's write lock *)
 }.
 
 Definition is_start (t : token) : bool := match t with TStart _ _ => true | _ => false end.
@@ -437,7 +441,11 @@ Definition e_state (owner : bool) (h : list aop) : estate := fold_left (e_step o
 Definition expect_live (h : list aop) : bool :=
   match e_state true h with ENone => false | _ => true end.
 
-(* decode first; an accepted <open/> addressed to the session is answered and the
+(* a local Write is in progress on the stream *)
+Definition writing (h : list aop) : bool := existsb (fun o => match o with AWWrite => true | _ => false end) h.
+
+(* decode first; a <close/> for a stream with a Write in progress must not wait
+   for the writer (it only makes it stop); an accepted <open/> addressed to the session is answered and the
    new connection handed to the Expect call registered for it (select with its
    done channel: never parks), otherwise to the listener over its unbuffered
    accept channel: parked until the application calls Accept, a panic if that
@@ -455,6 +463,8 @@ Definition ibb_iq (f : facts) (e : env) (start : token) : cset :=
             | _ => if acc then returns else CBlocked :: returns
             end
         end
+      else if bytes_eqb (nlocal n) (str "close") && e_match e && writing (e_hist e) && negb (f_close_no_wait f)
+      then CBlocked :: returns   (* the writer waits for an acknowledgement only this goroutine can deliver *)
       else returns
   | _ => returns
   end.
@@ -690,7 +700,8 @@ Definition muc_depart_site : site :=
 
 Definition gen_facts : facts :=
   mkfacts (keys_agree listener_table_keys) (existsb (site_eqb muc_depart_site) generated_sites)
-          ho_ibb_expect_cleanup_checks_owner receipts_delete_precedes_send.
+          ho_ibb_expect_cleanup_checks_owner receipts_delete_precedes_send
+          (Nat.eqb ho_ibb_serve_close_blocking_write_locks 0).
 
 (* every access of the session's map of pending requests is inside a lock region of its mutex *)
 Definition session_maps_locked : bool :=
